@@ -473,6 +473,19 @@ func init() {
 		return e.callSSA(g, args, nil)
 	})
 
+	// hash/crc32: no SIMD kernels, the package's own slicing-by-8 Go code runs
+	reg("hash/crc32.archAvailableIEEE", func(e *Exec, args []Value, fn *ssa.Function) Value { return e.tc.Bool(false) })
+	reg("hash/crc32.update", func(e *Exec, args []Value, fn *ssa.Function) Value {
+		return e.callModel("CRC32Update", args[0], args[1], args[2])
+	})
+	reg("hash/crc32.simpleUpdate", func(e *Exec, args []Value, fn *ssa.Function) Value {
+		return e.callModel("CRC32Update", args[0], args[1], args[2])
+	})
+	reg("hash/crc32.slicingUpdate", func(e *Exec, args []Value, fn *ssa.Function) Value {
+		return e.callModel("CRC32Update", args[0], args[1], args[2]) // &tab[0] has the address of tab
+	})
+	reg("hash/crc32.archAvailableCastagnoli", func(e *Exec, args []Value, fn *ssa.Function) Value { return e.tc.Bool(false) })
+
 	// ---- math ----
 	reg("math.Abs", func(e *Exec, args []Value, fn *ssa.Function) Value {
 		return e.tc.FUn(OpFAbs, args[0].(*Term))
